@@ -390,6 +390,26 @@ var rulePredLoop = &Rule{
 		} else if len(probs) == 0 {
 			probs = append(probs, "the flags remembering an unknown pair (lax) and a true pair (strict) could not be identified")
 		}
+		// before the loop: the only way out is a failed operand, reported as unknown
+		outer := header
+		for h := header.Idom(); h != nil; h = h.Idom() {
+			for _, pr := range h.Preds {
+				if header == pr || header.Dominates(pr) {
+					outer = h
+				}
+			}
+		}
+		npre := 0
+		for _, r := range returnsOf(fn) {
+			if r.Instr.Block() == fn.Recover || outer.Dominates(r.Instr.Block()) || len(r.Results) != 2 {
+				continue
+			}
+			npre++
+			if k, ok := constInt(stripConv(r.Results[0])); !ok || k != U {
+				probs = append(probs, "return at "+p.pos(r.Instr.Pos())+" answers before the operand pairs are examined with an outcome other than unknown: an operand that was never evaluated cannot fail any more")
+			}
+		}
+		n += npre
 		sort.Strings(probs)
 		probs = uniq(probs)
 		key := "decision table of the pairwise loop"
